@@ -83,7 +83,9 @@ JudgeUtilsRt(e) ==
                  \cup V(wf /\ e.t = "opaque" => e.regen = b, <<"C20">>, "Utils.GenerateInvertsParse")
                  \cup V(wf /\ e.t = "ok" => e.desc = DescOfParse(h, w, b), <<"C20">>, "Utils.ParseAgreesWithCodec")
                  \cup V(wf /\ e.t = "ok" => e.regen = b, <<"C20">>, "Utils.GenerateInvertsParse")
-                 \cup V(wf /\ e.t = "ok" => e.regen = SerializePkt(PktOfDesc(h.kind, e.desc)), <<"C20">>, "Utils.GenerateIsSerialize"),
+                 \cup V(wf /\ e.t = "ok" => e.regen = SerializePkt(PktOfDesc(h.kind, e.desc)), <<"C20">>, "Utils.GenerateIsSerialize")
+                 \* the bytes are "exactly the bytes" of the packet: nothing is written beyond them
+                 \cup V(e.t \in {"ok", "opaque"} /\ Has(e, "tail_ok") => e.tail_ok, <<"C20">>, "Utils.GenerateWritesOnlyThePacket"),
             hits |-> H(TRUE, "Utils.NoPanic") \cup H(wf, "Utils.ParsesWellFormed") \cup H(wf /\ e.t = "ok", "Utils.ParseAgreesWithCodec")
                  \cup H(wf /\ e.t = "ok", "Utils.GenerateInvertsParse") \cup H(wf /\ e.t = "ok", "Utils.GenerateIsSerialize")
                  \cup H(wf /\ e.src = "encap", "Utils.SameAsEncap"),
@@ -93,7 +95,8 @@ JudgeUtilsGen(e) ==
   LET d == e.desc
       consistent == ~e.panic /\ d.gse_len = Len(e.bytes) - 2
   IN [ bad |-> V(~e.panic, <<"C20">>, "Utils.GenNoPanic")
-            \cup V(consistent => e.bytes = SerializePkt(PktOfDesc(d.kind, d)), <<"C20">>, "Utils.SyntheticGenerateIsSerialize"),
+            \cup V(consistent => e.bytes = SerializePkt(PktOfDesc(d.kind, d)), <<"C20">>, "Utils.SyntheticGenerateIsSerialize")
+            \cup V(~e.panic /\ Has(e, "tail_ok") => e.tail_ok, <<"C20">>, "Utils.GenerateWritesOnlyThePacket"),
        hits |-> H(TRUE, "Utils.GenNoPanic") \cup H(consistent, "Utils.SyntheticGenerateIsSerialize"),
        cls |-> <<"utils_gen", IF e.panic THEN "panic" ELSE d.kind, IF e.panic THEN "-" ELSE d.label.k, SizeClass(Len(e.bytes))>> ]
 
